@@ -16,6 +16,10 @@
 (*   ReEnc out                    WriteValue(fresh output, value just read)*)
 (*   End                          everything read back and re-encoded      *)
 (*   RT   v out ret avail again   a complete one-value history in one step *)
+(*   RTs  sp in out rsp rin avail again   the same for a DEEP value, given  *)
+(*                                by its spine (ValueCodec!Spine): sp/in   *)
+(*                                the value written, rsp/rin the object    *)
+(*                                read back, walked down the same way      *)
 (* A panic is logged as "Panic", for which there is no action.             *)
 (* Values are JSON {"t": code, "v": payload} in the representation of      *)
 (* Value.tla (maps: arrays of [key, value] pairs in insertion order).      *)
@@ -62,10 +66,21 @@ RTObserved(e) == /\ e.out = wire'
 TraceRT == /\ Step("RT")
            /\ LET e == Trace[l] IN RT(e.v) /\ RTObserved(e)
 
+\* a deep value: the spine notation is expanded, then it is a value like any other
+TraceRTs == /\ Step("RTs")
+            /\ LET e == Trace[l] IN
+                 /\ SpineOK(e.sp) /\ SpineOK(e.rsp)
+                 /\ \E v \in {Spine(e.sp, e.in)} : \E rv \in {Spine(e.rsp, e.rin)} :
+                      /\ RT(v)
+                      /\ e.out = wire'
+                      /\ SameValue(rv, backs'[1])
+                      /\ e.avail = Len(wire') - (rpos' - 1)
+                      /\ e.again = again'[1]
+
 \* every invariant of ValueCodec that is affordable per step is re-evaluated after each event
 InvAll == ReadBack /\ ExactConsumption /\ AllConsumed /\ WireOK /\ ReEncodeIdentical /\ TagFirst
 
-TraceNextBase == TraceReset \/ TraceW \/ TraceOpen \/ TraceR \/ TraceReEnc \/ TraceEnd \/ TraceRT
+TraceNextBase == TraceReset \/ TraceW \/ TraceOpen \/ TraceR \/ TraceReEnc \/ TraceEnd \/ TraceRT \/ TraceRTs
 TraceNext == TraceNextBase /\ InvAll'
 
 TraceSpec == TraceInit /\ [][TraceNext]_tvars
